@@ -177,8 +177,14 @@ class H11Protocol:
                     await self._check_protocol(event)
                     await self._create_stream(event)
                 elif event is h11.PAUSED:
+                    if self.stream is None:
+                        break  # Closing, there is no response to wait for
                     await self.can_read.clear()
                     await self.can_read.wait()
+                    if self.connection.our_state is not h11.IDLE:
+                        # Not recycled i.e. the connection is closing, the
+                        # pipelined data will never be read.
+                        break
                 elif isinstance(event, h11.ConnectionClosed) or event is h11.NEED_DATA:
                     break
                 elif self.stream is None:
